@@ -639,6 +639,8 @@ def _c12_history(case, sf, hist):
         pass
     st = hist.State(_presets0())
     probe = "[C][#C]"
+    ALIAS = "same object twice (not a private copy)"
+    first_alias = None
     try:
         for op in case["ops"]:
             before = _dec(probe)
@@ -648,10 +650,16 @@ def _c12_history(case, sf, hist):
             if st.cur is cur_before and _dec(probe) != before:
                 st.problem("decoder(%r) changed across %s, which must leave the table unchanged" % (probe, op["op"]))
             real = [(t, c) for t, c in st.problems if c is True or (c is not False and bool(c))]
-            if real:
-                txt = real[0][0]
-                sig = "C12:" + _hist_sig(txt)
-                return bad(sig, "after %s: %s" % ([_opname(o) for o in st.log], txt))
+            # the aliased alphabet (a known finding, seen after every call) must not hide anything else: the history goes
+            # on, and any other problem is what gets reported
+            other = [x for x in real if ALIAS not in x[0]]
+            if other:
+                txt = other[0][0]
+                return bad("C12:" + _hist_sig(txt), "after %s: %s" % ([_opname(o) for o in st.log], txt))
+            if real and first_alias is None:
+                first_alias = ("after %s: %s" % ([_opname(o) for o in st.log], real[0][0]))
+        if first_alias is not None:
+            return bad("C12:alphabet-aliased", first_alias)
         return ok()
     finally:
         try:
@@ -1383,7 +1391,53 @@ def c07_after_reject(case):
         reset_table()
 
 
-def c07_alphabet_now(tab):
+def c07_after_accept(case):
+    """table A accepted and used, then table B accepted (as a fresh dict, as the same dict object edited in place, or
+    as an equal-looking dict after the caller edited the one passed before): alphabet and strings follow B"""
+    reset_table()
+    try:
+        A, B, mode = dict(case["table_a"]), dict(case["table_b"]), case["mode"]
+        d = dict(A)
+        try:
+            sf.set_semantic_constraints(d)
+        except ValueError:
+            return ok("table A rejected")
+        sf.get_semantic_robust_alphabet()
+        _dec(case["selfies"])
+        try:
+            if mode == "fresh":
+                sf.set_semantic_constraints(dict(B))
+            elif mode == "same_object":
+                d.clear()
+                d.update(B)
+                sf.set_semantic_constraints(d)
+            else:
+                d.clear()
+                d.update(B)          # the caller edits the dict it passed before ...
+                sf.set_semantic_constraints(dict(B))   # ... and passes an equal-looking new one
+        except ValueError:
+            return ok("table B rejected")
+        tab = dict(B)
+        got = sf.get_semantic_constraints()
+        if got != tab:
+            return bad("C07:after-accepted-update", "tables %s then %s (%s): get_semantic_constraints() = %s" % (_short(A), _short(B), mode, _short(got)))
+        r = c07_alphabet_now(tab, "C07:after-accepted-update", "after the accepted update %s -> %s (%s)" % (_short(A), _short(B), mode))
+        if r is not None:
+            return r
+        dd = _dec(case["selfies"])
+        if dd[0] != "ok":
+            return bad("C07:after-accepted-update", "tables %s then %s (%s): decoder(%r) -> %s" % (_short(A), _short(B), mode, case["selfies"], dd[0]))
+        f = smiles_faults(dd[1], tab, "C07")
+        if f is not None:
+            f["sig"] = "C07:after-accepted-update"
+            f["detail"] = "tables %s then %s (%s): decoder(%r): %s" % (_short(A), _short(B), mode, case["selfies"], f["detail"])
+            return f
+        return ok()
+    finally:
+        reset_table()
+
+
+def c07_alphabet_now(tab, sig="C07:after-rejected-update", what="after a rejected update"):
     from . import docs
     alpha = set(sf.get_semantic_robust_alphabet())
     want = set(docs.DOC_INDEX) | {"[%sBranch%d]" % (b, i) for b in ("", "=", "#") for i in (1, 2, 3)} | \
@@ -1395,8 +1449,8 @@ def c07_alphabet_now(tab):
             if o <= v:
                 want.add("[%s%s]" % (b, k))
     if alpha != want:
-        return bad("C07:after-rejected-update", "after a rejected update the robust alphabet no longer matches the table in force %s: extra %s, missing %s"
-                   % (_short(tab), sorted(alpha - want)[:4], sorted(want - alpha)[:4]))
+        return bad(sig, "%s the robust alphabet no longer matches the table in force %s: extra %s, missing %s"
+                   % (what, _short(tab), sorted(alpha - want)[:4], sorted(want - alpha)[:4]))
     return None
 
 # ---------------------------------------------------------------------------
@@ -1437,6 +1491,7 @@ KINDS = {
     "stable_history": c10_history,
     "decoder_total_history": c08_history,
     "robust_after_reject": c07_after_reject,
+    "robust_after_accept": c07_after_accept,
     "state_fn": lemma_state_fn,
     "ring_step": lemma_ring_step,
 }
